@@ -7,7 +7,7 @@ from props.common import load_impl, exc_name, conj_prov
 
 RULE = ("random fit/score call histories (4-10 calls quick, up to 20 thorough) over 1-3 importance objects (methods neighbor K=1, neighbor K=2/ADD path, bruteforce, "
         "montecarlo) sharing datasets, provenance objects and one utility (whose model object is watched); byte snapshots of every caller-owned object - feature "
-        "arrays, label arrays / Series (values and index), Provenance data and Units lists, the distance matrix returned by a recording distance callable, the "
+        "arrays, label arrays / Series (values and index), Provenance objects (data and Units lists) and provenance given as integer id arrays (1-D and (unit, candidate) pairs), the distance matrix returned by a recording distance callable, the "
         "utility's model get_params() and fitted attributes - are taken before the history and compared after EVERY call; every score is compared with the score of a "
         "fresh object fitted on the same data (no leakage from earlier fits/scores) and repeated neighbor/bruteforce scores must be identical. Non-trivial = history "
         "contains >= 2 fits on different data and >= 2 scores; distinct = distinct histories.")
@@ -51,10 +51,16 @@ def run(ctx):
             Xv = np.round(nprng.randn(m, 2), 3)
             yv = np.array([rng.randrange(2) for _ in range(m)])
             n_units = rng.randint(2, 3)
-            prov_kind = rng.choice(["none", "conj", "series"])
+            prov_kind = rng.choice(["none", "conj", "series", "ids1d", "pairs2d"])
             prov = None
             if prov_kind == "conj":
                 prov = conj_prov(I, [sorted(rng.sample(range(n_units), rng.randint(1, 2))) for _ in range(n)], n_units)[0]
+            elif prov_kind in ("ids1d", "pairs2d"):
+                # caller-owned integer arrays of unit identifiers (not the canonical 0..n-1), platform int dtype so that no copy is forced
+                idpool = sorted(rng.sample(range(10, 90), n_units))
+                owner = [idpool[i % n_units] for i in range(n)]
+                rng.shuffle(owner)
+                prov = np.array(owner, dtype=np.int_) if prov_kind == "ids1d" else np.array([[o, 1] for o in owner], dtype=np.int_)
             ylab = pd.Series(y) if prov_kind == "series" else y
             D = np.abs(X[:, None, 0] - Xv[None, :, 0]) + np.arange(n)[:, None] * 1e-3
             datasets.append(dict(X=X, y=ylab, Xv=Xv, yv=yv, prov=prov, D=D))
@@ -92,7 +98,7 @@ def run(ctx):
             else:
                 ops.append(("score", o, rng.randrange(len(datasets))))
         case = dict(methods=methods, ops=ops, datasets=[dict(X=d["X"].tolist(), y=np.asarray(d["y"]).tolist(), Xv=d["Xv"].tolist(), yv=d["yv"].tolist(),
-                                                           prov=(np.asarray(d["prov"].data).tolist() if d["prov"] is not None else None)) for d in datasets])
+                                                           prov=(np.asarray(getattr(d["prov"], "data", d["prov"])).tolist() if d["prov"] is not None else None)) for d in datasets])
         for k, (op, o, di) in enumerate(ops):
             d = datasets[di]
             try:
